@@ -186,6 +186,7 @@ class MoreFormats(Delimited):
         for rows, comments in ((g[:2], {}), (g[:2], {"1": "#x"}), (g, {"1": "##sequence-region c 1 9", "2": "#y"}), (g[:2], {"0": "##gff-version 3"}),
                                (g[:2], {"1": "#a\tb"})):
             out.append(dict(fmt="gff", rows=rows, comments=comments, crlf=False))
+        out.append(dict(fmt="gff", rows=g[:2], comments={"1": "#x"}, crlf=True))
         if tier == "thorough":
             out.append(dict(fmt="gff", rows=g, comments={"1": "#x", "2": "#y"}, crlf=True))
         return out
